@@ -135,7 +135,66 @@ def discharge(P, f, kind, bb):
         if bb in asserts_proved_safe(f):
             return "D5 holds for every code point (interval evaluation of the classifier)"
         return None
+    if kind == "index":
+        d6 = _leading_ascii_prefix_slice(P, f, bb)
+        if d6:
+            return d6
     return None
+
+
+def _leading_ascii_prefix_slice(P, f, bb):
+    """D6: `s[n..]` / `s[..n]` where n = s.chars().take_while(|c| *c == <ASCII char>).count():
+    n one-byte characters lead the string, so n <= len and n is a character boundary."""
+    c = f.call_at[bb]
+    if len(c.args) != 2 or "str" not in (c.self_ty or "") and "String" not in (c.self_ty or ""):
+        return None
+    svars = f.vars_of_operand(c.args[0])
+    for o in f.origins_of_operand(c.args[1]):
+        if o[0][0] != "agg" or not o[0][4].split("::")[-1] in ("RangeFrom", "RangeTo"):
+            return None
+        rv = f.blocks[o[0][2]]["stmts"][o[0][3]]["rv"]
+        for x in f.origins_of_operand(rv["ops"][0]):
+            if not (x[0][0] == "call" and len(x) == 1 and x[0][3] == "std::iter::Iterator::count"):
+                return None
+            cnt = f.call_at[x[0][2]]
+            src = f.origins_of_operand(cnt.args[0])
+            if not src or not all(len(y) >= 2 and y[-1] == ("truncate", "take_while") and y[-2] == ("iter", "chars") for y in src):
+                return None
+            # the take_while call and its closure
+            tw = None
+            for c2 in f.calls:
+                if c2.path == "std::iter::Iterator::take_while" and f._call_origins(c2, (), frozenset()) == src:
+                    tw = c2
+            if tw is None:
+                return None
+            # same string
+            ch = [c3 for c3 in f.calls if c3.name == "chars" and f._call_origins(c3, (), frozenset()) == f.origins_of_operand(tw.args[0])]
+            if not ch or f.vars_of_operand(ch[0].args[0]) != svars:
+                return None
+            cid = None
+            a1 = tw.args[1]
+            if a1["k"] in ("copy", "move") and not a1["place"]["proj"]:
+                cid = f.local_ty(a1["place"]["local"]).get("closure")
+            cl = P.fns.get(cid)
+            if cl is None:
+                return None
+            # closure: returns (char == ASCII const), nothing else
+            consts = []
+            for b in cl.blocks:
+                if b["cleanup"]:
+                    continue
+                if b["term"]["k"] not in ("return", "goto"):
+                    return None
+                for st in b["stmts"]:
+                    if st["k"] == "assign" and st["rv"]["k"] == "binop":
+                        if st["rv"]["op"] != "Eq":
+                            return None
+                        for side in (st["rv"]["a"], st["rv"]["b"]):
+                            if side["k"] == "const" and side["ty"]["s"] == "char":
+                                consts.append(int(side.get("bits", "999999")))
+            if len(consts) != 1 or consts[0] >= 128:
+                return None
+    return "D6 offset = number of leading one-byte characters of the same string"
 
 
 def _const_of(f, op):
